@@ -49,9 +49,22 @@ def main():
             fout = open(job["out"], "wb") if job["outfmt"] == "b" else open(job["out"], "w", encoding="utf-8")
             r = R(fin)
             w = W(fout)
-            r.copy_to(w)
-            r.close()
-            w.close()
+            if job.get("mode") == "hold":
+                # read every step completely (streams into lists) and keep all values alive until
+                # the reader is closed; only then write them: a reader that hands out values aliasing
+                # its internal buffers is caught by this mode
+                held = []
+                for st in job["steps"]:
+                    v = getattr(r, "read_" + st["name"])()
+                    held.append(list(v) if st["stream"] else v)
+                r.close()
+                for st, v in zip(job["steps"], held):
+                    getattr(w, "write_" + st["name"])(v)
+                w.close()
+            else:
+                r.copy_to(w)
+                r.close()
+                w.close()
         except BaseException as e:  # noqa
             rc = 3
             exc = type(e).__name__ + ": " + str(e)[:300]
